@@ -891,7 +891,7 @@ def _judge(shape, obs, G, q, N):
     quad = M.Quadrature(shape, grid, q)
     elo, ehi = quad.cells()
     olo, ohi, outside, A_lo, A_hi = _accumulate_obs(grid, obs)
-    res = dict(cells=int(grid.size), outside=outside, A_lo=A_lo, A_hi=A_hi, mu_lo=quad.mu_lo, mu_hi=quad.mu_hi, bad=[])
+    res = dict(cells=int(grid.size), outside=outside, A_lo=A_lo, A_hi=A_hi, mu_lo=quad.mu_lo, mu_hi=quad.mu_hi, bad=[], atoms_bad=[])
     if A_lo <= 0 or quad.mu_lo <= 0:
         res["judged"] = 0
         res["width"] = None
@@ -1080,8 +1080,8 @@ def _own_contains(region, P, kinds):
 
 
 TIER = {
-    "quick": dict(N={1: 96, 2: 24, 3: 16}, N_surface=12, N_voxel=8, G={1: 4, 2: 4, 3: 4}, q={1: 8, 2: 48, 3: 12}, Gs={1: 16, 2: 8, 3: 4}, qs={1: 4, 2: 12, 3: 8}, max_exec=400_000),
-    "thorough": dict(N={1: 256, 2: 64, 3: 24}, N_surface=32, N_voxel=16, G={1: 8, 2: 8, 3: 4}, q={1: 8, 2: 32, 3: 14}, Gs={1: 32, 2: 16, 3: 8}, qs={1: 4, 2: 8, 3: 6}, max_exec=3_000_000),
+    "quick": dict(N={1: 96, 2: 24, 3: 16}, N_surface=12, N_voxel=8, G={1: 4, 2: 4, 3: 4}, q={1: 8, 2: 48, 3: 12}, Gs={1: 16, 2: 8, 3: 4}, qs={1: 4, 2: 12, 3: 8}, max_exec=400_000, max_leaves_2d=30_000),
+    "thorough": dict(N={1: 256, 2: 64, 3: 24}, N_surface=32, N_voxel=16, G={1: 8, 2: 8, 3: 4}, q={1: 8, 2: 32, 3: 14}, Gs={1: 32, 2: 16, 3: 8}, qs={1: 4, 2: 8, 3: 6}, max_exec=3_000_000, max_leaves_2d=120_000),
 }
 
 
@@ -1113,8 +1113,22 @@ def run_continuous(item):
     except M.Unsupported as e:
         out["excluded"] = f"oracle: {e}"
         return out
+    # does the composed set have positive natural measure at all?
+    try:
+        coarse = M.Quadrature(shape, M.Grid.uniform(lo, hi, 4), 6 if dim == 3 else 16)
+    except M.Unsupported as e:
+        out["excluded"] = f"oracle: {e}"
+        return out
+    out["stats"]["measure_coarse"] = [coarse.mu_lo, coarse.mu_hi]
+    expect_empty = coarse.mu_hi <= 0
+    if not expect_empty and coarse.mu_lo <= 0:
+        out["excluded"] = "oracle: measure of the composed set not resolved (thin set)"
+        return out
     if isinstance(region, R.EmptyRegion):
-        viol(f"empty-result:{sig}", "the library returned the empty region for a composition of positive measure")
+        if expect_empty:
+            out["stats"]["empty_agree"] = True
+        else:
+            viol(f"empty-result:{sig}", f"the library returned the empty region for a composition of measure >= {coarse.mu_lo:.4g}")
         return out
     N, G, q = par["N"][dim], par["G"][dim], par["q"][dim]
     kinds = {type(K).__name__ for K in shape.carriers()}
@@ -1122,6 +1136,10 @@ def run_continuous(item):
         N = par["N_surface"]
     if any(getattr(pr, "kind", "") == "voxel" for pr in _all_shapes(shape)):
         N = par["N_voxel"]
+    # many-triangle polygons (and unions containing them): bound the number of executions
+    ntri = _triangle_count(region)
+    if ntri * N * N > par["max_leaves_2d"] and dim == 2:
+        N = max(16, int(math.sqrt(par["max_leaves_2d"] / ntri)))
     while N % G:
         G -= 1
     try:
@@ -1143,7 +1161,10 @@ def run_continuous(item):
     st["outcomes"] = {k: sum(1 for l in leaves if (l[3] if isinstance(l[3], str) else "POINT") == k) for k in ("POINT", "REJECT", "CUT", "RETRY")}
     pts = np.array([l[3] for l in leaves if isinstance(l[3], tuple)])
     if len(pts) == 0:
-        viol(f"never-accepts:{sig}", "no lattice point produced a sample")
+        if expect_empty:
+            st["empty_agree"] = True
+        else:
+            viol(f"never-accepts:{sig}", f"no lattice point produced a sample although the composed set has measure >= {coarse.mu_lo:.4g}")
         return out
     if np.isnan(pts).any():
         raise HarnessError(f"{name}: NaN in a produced point (lazy draw escaped the seam)")
@@ -1179,7 +1200,7 @@ def run_continuous(item):
     if info.get("branches") and ast["groups"] < info["branches"]:
         viol(f"branch-unreached:{sig}", f"only {ast['groups']} of {info['branches']} discrete branches (triangles/edges/voxels) were reached")
     st["branches"] = ast["groups"]
-    if len(nonm) == 0:
+    if len(nonm) == 0 and not expect_empty:
         res, quad, grid = _judge(shape, obs, G, q, N)
         st["cells"] = res["cells"]
         st["judged"] = res["judged"]
@@ -1210,6 +1231,21 @@ def run_continuous(item):
     st["wall"] = round(time.time() - t0, 2)
     st["N"], st["dim"] = N, dim
     return out
+
+
+def _triangle_count(region):
+    """number of triangles the library will choose from (sizing only)."""
+    from scenic.core import regions as R
+
+    if isinstance(region, R.PolygonalRegion) and type(region).__name__ == "PolygonalRegion":
+        return len(region._samplingData[0])
+    n = 0
+    for sub in getattr(region, "regions", ()) or ():
+        n += _triangle_count(sub)
+    for nm in ("regionA",):
+        if hasattr(region, nm):
+            n += _triangle_count(getattr(region, nm))
+    return max(n, 0)
 
 
 def _all_shapes(shape):
@@ -1329,15 +1365,14 @@ def run_discrete(item):
     cand = {}
     for p in pts:
         cand.setdefault(_key(p), p)
-    expected, touching = set(), 0
+    # candidates within tolerance of an operand's boundary are neither required nor forbidden
+    expected, touching = set(), set()
     for kk, p in cand.items():
         m = member(p)
         if m is None:
-            touching += 1
+            touching.add(kk)
         elif m:
             expected.add(kk)
-    if touching:
-        raise HarnessError(f"{name}: case design puts a point on a boundary")
 
     def once():
         try:
@@ -1367,8 +1402,8 @@ def run_discrete(item):
         raise HarnessError(f"{name}: leaf weights sum to {sum(law.values())}")
     rej = law.pop("REJECT", Fraction(0))
     st = out["stats"]
-    st.update(executions=n, members=len(expected), produced=len(law), reject=str(rej), candidates=len(cand))
-    extra = sorted(set(law) - expected)
+    st.update(executions=n, members=len(expected), produced=len(law), reject=str(rej), candidates=len(cand), touching=len(touching))
+    extra = sorted(set(law) - expected - touching)
     missing = sorted(expected - set(law))
     if extra:
         detail = "outside"
@@ -1383,7 +1418,7 @@ def run_discrete(item):
         viol(f"nonmember:{sig}:{detail}", f"points {extra[:4]} are produced but are not in the composed set (members: {sorted(expected)[:6]})")
     if missing:
         viol(f"unreachable-member:{sig}", f"member points {missing[:4]} can never be produced ({len(law)} of {len(expected)} members reachable, P(reject)={rej})")
-    ws = {w for kk, w in law.items() if kk in expected}
+    ws = {w for kk, w in law.items() if kk in expected or kk in touching}
     if len(ws) > 1:
         viol(f"nonuniform:{sig}", f"accepted outcomes have different exact probabilities: { {str(kk): str(w) for kk, w in list(law.items())[:6]} }")
     st["uniform_weight"] = str(next(iter(ws))) if len(ws) == 1 else None
@@ -1518,6 +1553,8 @@ def continuous_cases(tier):
         ("circle&rect", _c("intersect", P["circle"], P["rect"])),
         ("rect|sector", _c("union", P["rect"], P["sector"])),
         ("polygon-circle", _c("difference", P["polygon"], circ1)),
+        ("polygon&wide-sector", _c("intersect", PRIMS["polygon"][2], _res(PRIMS["sector"][2], 6))),
+        ("voxel&polyline", _c("intersect", P["voxel"], PRIMS["polyline"][1])),
         ("lmesh&circle@z", _c("intersect", P["lmesh"], _at_z(P["circle"], zin))),
         ("box&polyline", _c("intersect", PRIMS["box"][1], P["polyline"])),
         ("spheroid&path", _c("intersect", P["spheroid"], P["path"])),
@@ -1538,19 +1575,26 @@ def continuous_cases(tier):
     ]
     cases += comps
     if tier == "thorough":
+        # every ordered pair of kinds under every operation; the parameter sets rotate with the
+        # pair so that all three sets of every kind take part
         kinds = list(PRIMS)
+        planar = ("polygon", "circle", "sector", "rect")
         for op in ("intersect", "union", "difference"):
-            for a in kinds:
-                for b in kinds:
+            for ia, a in enumerate(kinds):
+                for ib, b in enumerate(kinds):
                     if a == b:
                         continue
-                    for i in range(3):
-                        sa, sb = PRIMS[a][i], PRIMS[b][(i + 1) % 3]
-                        if a in ("polygon", "circle", "sector", "rect") and b in ("box", "spheroid", "lmesh", "lsurf", "voxel", "view", "path"):
-                            sa = _at_z(sa, zin)
-                        if b in ("polygon", "circle", "sector", "rect") and a in ("box", "spheroid", "lmesh", "lsurf", "voxel", "view", "path"):
-                            sb = _at_z(sb, zin)
-                        cases.append((f"{op}:{a}#{i},{b}#{(i + 1) % 3}", _c(op, sa, sb)))
+                    i, j = (ia + ib) % 3, (ia + 2 * ib + 1) % 3
+                    sa, sb = PRIMS[a][i], PRIMS[b][j]
+                    if a in ("circle", "sector"):
+                        sa = _res(sa, 8)
+                    if b in ("circle", "sector"):
+                        sb = _res(sb, 8)
+                    if a in planar and b not in planar and b != "polyline":
+                        sa = _at_z(sa, zin)
+                    if b in planar and a not in planar and a != "polyline":
+                        sb = _at_z(sb, zin)
+                    cases.append((f"{op}:{a}#{i},{b}#{j}", _c(op, sa, sb)))
     return cases
 
 
@@ -1646,6 +1690,7 @@ def run(ctx):
         if r["mode"] == "discrete":
             tot["discrete_exec"] += st.get("executions", 0)
             tot["members"] += st.get("members", 0)
+            tot["touching"] += st.get("touching", 0)
             if st.get("members", 0) >= 2 and st.get("candidates", 0) > st.get("members", 0):
                 nontrivial += 1
             if st.get("executions"):
@@ -1657,7 +1702,9 @@ def run(ctx):
             tot["density"] += st.get("density_judged", 0) or 0
             tot["support"] += st.get("support_tested", 0) or 0
             tot["own"] += st.get("own_contains_checked", 0) or 0
-            if not r["violations"]:
+            if st.get("empty_agree"):
+                tot["empty_agree"] = tot.get("empty_agree", 0) + 1
+            elif not r["violations"]:
                 if not st.get("judged") or not st.get("support_tested"):
                     raise HarnessError(f"vacuous case {r['name']}: no cell judged")
                 judged_cases += 1
@@ -1695,6 +1742,7 @@ def run(ctx):
         support_cells_judged=tot["support"],
         own_containsPoint_calls=tot["own"],
         skipped_touching=tot["touching"],
+        empty_compositions_agreed=tot.get("empty_agree", 0),
         excluded=excluded[:60],
         excluded_count=len(excluded),
         library_region_kinds=per_kind,
